@@ -1180,3 +1180,24 @@ Proof.
   - inversion Hs as [|? ? _ Hf]; subst. inversion Hf as [|? ? Hlt _]; subst. unfold W32 in Hlt. lia.
   - inversion Hs; subst. auto.
 Qed.
+
+(* ---------- the clauses on the implementation model, by refinement ---------- *)
+Theorem concrete_ids_increasing : forall g ops, cfg_wrap g = false ->
+  StronglySorted N.lt (tr_ids (snd (run (cstep g) cinit ops))).
+Proof.
+  intros g ops Hw. rewrite (refinement g ops Hw). apply (ids_increasing_gen ops ainit AInv_init).
+Qed.
+
+Theorem concrete_events_exact : forall g ops id, cfg_wrap g = false ->
+  events_for id (tr_events (snd (run (cstep g) cinit ops))) =
+  life_events id (lifecycle_of id (snd (run (cstep g) cinit ops))).
+Proof. intros g ops id Hw. rewrite (refinement g ops Hw). apply events_exact. Qed.
+
+Theorem update_identity_reachable : forall ops i,
+  let a := fst (run astep ainit ops) in
+  forall id n rd, entry_with (fst (fst (astep a (OUpdate i)))) id n rd <-> entry_with a id n rd.
+Proof. intros ops i a. apply update_keeps_identity. apply (run_inv ops ainit AInv_init). Qed.
+
+Theorem dir_lin_check_correct : forall h,
+  lin_check astep_r dres_eqb ainit h = true <-> linearizable astep_r ainit h.
+Proof. intros h. apply lin_check_iff. apply dres_eqb_spec. Qed.
